@@ -1,0 +1,7 @@
+//go:build verif
+
+// Contracts checked by /verif/govc (comment-only file; adds no code).
+
+package truststore
+
+//@ global invariant len(Types) == 3 && Types[0] == TypeCA && Types[1] == TypeSigningAuthority && Types[2] == TypeTSA
